@@ -231,7 +231,9 @@ func encode(ctx *encoder.RuntimeContext, v interface{}) ([]byte, error) {
 
 	p := uintptr(header.ptr)
 	ctx.Init(p, codeSet.CodeLength)
-	ctx.KeepRefs = append(ctx.KeepRefs, header.ptr)
+	// the program is referenced from the slot array by integers only while a nested program runs, and
+	// it is not necessarily in the cache (two goroutines compiling at once: one set replaces the other)
+	ctx.KeepRefs = append(ctx.KeepRefs, header.ptr, unsafe.Pointer(codeSet))
 
 	buf, err := encodeRunCode(ctx, b, codeSet)
 	if err != nil {
@@ -259,6 +261,7 @@ func encodeNoEscape(ctx *encoder.RuntimeContext, v interface{}) ([]byte, error) 
 
 	p := uintptr(header.ptr)
 	ctx.Init(p, codeSet.CodeLength)
+	ctx.KeepRefs = append(ctx.KeepRefs, unsafe.Pointer(codeSet)) // see encode
 	buf, err := encodeRunCode(ctx, b, codeSet)
 	// the interpreter holds the value as a uintptr only: it has to stay reachable until the
 	// interpreter is done (that v does not escape lets the caller keep it on its stack, it does not
@@ -290,6 +293,7 @@ func encodeIndent(ctx *encoder.RuntimeContext, v interface{}, prefix, indent str
 
 	p := uintptr(header.ptr)
 	ctx.Init(p, codeSet.CodeLength)
+	ctx.KeepRefs = append(ctx.KeepRefs, unsafe.Pointer(codeSet)) // see encode
 	buf, err := encodeRunIndentCode(ctx, b, codeSet, prefix, indent)
 
 	ctx.KeepRefs = append(ctx.KeepRefs, header.ptr)
